@@ -116,6 +116,12 @@ var aeVariants = [][]string{
 	{"gzip;q=0.5"}, {"gzip;q=1.0, identity; q=0.5"}, {"deflate"}, {"br"}, {"*"}, {"identity"}, {"x-gzip"},
 	{"deflate", "gzip"}, {"gzip", "deflate"}, {" gzip"}, {"deflate;q=0.5,gzip;q=1"}, {"gzip;Q=0"}, {"notgzip2"},
 	{"*;q=0, gzip"}, {"gzip;q=0, *"},
+	// more spellings of a zero weight (and near misses), kept after fix 7cff601
+	{"gzip ; q=0"}, {"gzip;\tq=0"}, {"gzip;q=0 , deflate"}, {"gzip;q=0."}, {"gzip;q=0.0000"}, {"gzip;q=00"}, {"gzip;q=."}, {"gzip;q="},
+	{"gzip; Q=0.0"}, {"deflate, gzip;Q=0"}, {"gzip;q=0;x=1"}, {"gzip;x=1;q=0"}, {"gzip;q =0"}, {"gzip;q= 0"}, {"x-gzip;q=0"}, {"x-gzip;q=0.3"},
+	{"gzip;q=0, x-gzip"}, {"gzip;q=0.1"}, {"br;q=0, gzip"}, {"gzip;q=0", "gzip"}, {"gzip, notgzip2"}, {"gzip;"}, {"gzip;q=1;q=0"},
+	// upper / mixed-case coding names (case-insensitive since bfb8a14)
+	{"Gzip;q=0"}, {"GZIP;Q=0.0"}, {"X-GZIP"}, {"X-Gzip;q=0"}, {"deflate, GZip;q=0.8"}, {"gzipx"}, {"x-gzip2, br"},
 }
 
 var acceptVariants = [][]string{
